@@ -7,7 +7,18 @@
 #include <string.h>
 #include <stdlib.h>
 #include <math.h>
+int _soxr_trace_level; void _soxr_trace(char const * fmt, ...) { (void)fmt; }
 #include "vr32.c"
+
+/* data-only replacement for the two per-sample kernels poly_fir1_d / poly_fir1_u (coefficient fetch at a position-dependent table
+ * index + dot product): substituted at goto-program level (goto-instrument --replace-calls) in the stage-switch obligation, where
+ * only the position / step bookkeeping around them is the subject */
+float vf_poly_fir1_data_only(float const * input, uint32_t frac) { (void)input; (void)frac; return 0; }
+float vf_fir_data_only(float const * input) { (void)input; return 0; }
+/* "no frame produced in this call" behaviour of the four resampling kernels (legal: what they do when the stream's input is exhausted,
+ * INT(at) >= len): substituted in the stage-switch obligation so that the state asserted afterwards is the state the switch block left */
+int vf_kernel_none(stream_t * s, float * output, int olen) { (void)s; (void)output; (void)olen; return 0; }
+int vf_fade_kernel_none(stream_t * s, float const * vol, int step, float * output, int olen) { (void)s; (void)vol; (void)step; (void)output; (void)olen; return 0; }
 
 #ifndef VF_OP
 #define VF_OP 0
@@ -102,39 +113,62 @@ VF_MAIN
     VF_ASSERT(R.current.step_step.all == 0 && R.fadeout.step_step.all == 0 && R.new_io_ratio == 0, "a slew that moves nothing is dropped for both streams");
   VF_ASSERT(R.current.step.all == in_cstep && R.fadeout.step.all == in_fstep, "setting up a slew does not jump either stream (C16)");
 #elif VF_OP == 3
-  /* stage switch between stage 0 (decimating path, 2x rate) and stage -1 (interpolating path): a resampler built by the real
-   * vr_init, brought to the state "slew in progress, step about to cross the octave boundary" (step / step_step / position
-   * symbolic, sample data zero), one real vr_process call.  After the switch the fade-in stream (new stage) and the fade-out
-   * stream (old stage) must describe the SAME ratio trajectory: step and step_step, each divided by its stream's step_mult,
-   * agree (up to the bit shifted out by the rescaling). */
-  IN_I64(in_step); IN_I64(in_ss); IN_I64(in_at); IN_UINT(in_slew);
-  static rate_t R; int odone; double mc, mf;
-  fade_coefs[0] = 1;                      /* tables already initialised: vr_init's table preparation (61k float operations) is not this obligation's subject */
-  vr_init(&R, 1.5, 1, 1.);
-  R.default_io_ratio = 0;                 /* ratio already set: */
-  R.current.stage_num = 0; enter_new_stage(&R, 0);
-  /* about to leave stage 0 downwards: integer part 0, fraction below one half (vr_process: stage_dif = -1) */
-#ifdef VF_STEP      /* position and step concrete (a symbolic read position turns every coefficient fetch into a symbolic index into the
-                     * 40960-entry tables: no verdict in 900 s); the slew increment and the slew length stay symbolic */
-  in_step = VF_STEP; in_at = VF_AT;
+  /* stage switch inside the real vr_process, from a directly constructed engine state (what vr_init + vr_input leave behind:
+   * stage 0 holds its pre-load of 2*HALF_FIR_LEN_2 zeros plus VF_NIN input samples, the interpolating stage -1 is derived from it by
+   * the real do_input_stage at the top of vr_process): "slew in progress, step has just crossed the octave boundary" - step,
+   * step_step, position, slew length symbolic; sample VALUES are data only (zero; the per-sample dot products are replaced at
+   * goto-program level by vf_*_data_only: their table index depends on the symbolic position).
+   * VF_DIR 0: stage 0 (decimating path, 2x rate) -> stage -1 (interpolating path): ratio falls below 1
+   *        1: stage -1 -> stage 0: ratio rises above 1
+   * After the call the fade-in stream (new stage) and the fade-out stream (old stage) must describe the SAME ratio trajectory:
+   * step and step_step, each divided by its stream's step_mult, agree (up to the bits shifted out by the rescaling), and the
+   * read positions address the same instant of the input. */
+#ifndef VF_DIR
+#define VF_DIR 0
 #endif
-  VF_ASSUME(in_step > ((int64_t)1 << 28) && in_step < ((int64_t)1 << 31) && in_ss > -((int64_t)1 << 20) && in_ss < ((int64_t)1 << 20) && in_ss != 0);
-  VF_ASSUME(in_at >= 0 && in_at < ((int64_t)1 << 32) && in_slew >= 8 && in_slew < 1000);
-  R.current.step.all = in_step; R.current.step_step.all = in_ss; R.current.at.all = in_at;
+#ifndef VF_NIN
+#define VF_NIN 272
+#endif
+  IN_I64(in_step); IN_I64(in_ss); IN_I64(in_at); IN_UINT(in_slew);
+  static rate_t R; static stage_t st[2]; static float b_m1[0x8000 / 4], b_0[0x8000 / 4], b_out[0x8000 / 4];
+  int odone, from = VF_DIR? -1 : 0, to = VF_DIR? 0 : -1; double mc, mf; int64_t at0, step0, ss0;
+  fade_coefs[0] = 1;
+  R.num_stages0 = 1; R.num_stages = 1; R.stages = st + 1;
+  st[0].fifo.data = (char *)b_m1; st[0].fifo.allocation = 0x8000; st[0].fifo.item_size = sizeof(float); st[0].step_mult = 2 * MULT32; st[0].preload = 0; st[0].is_fast = 1;
+  st[1].fifo.data = (char *)b_0; st[1].fifo.allocation = 0x8000; st[1].fifo.item_size = sizeof(float); st[1].step_mult = MULT32; st[1].preload = 2 * HALF_FIR_LEN_2; st[1].is_fast = 1;
+  st[1].fifo.end = (2 * HALF_FIR_LEN_2 + VF_NIN) * sizeof(float);
+  R.output_fifo.data = (char *)b_out; R.output_fifo.allocation = 0x8000; R.output_fifo.item_size = sizeof(float);
+  R.current.stage_num = from; enter_new_stage(&R, 0);
+#if VF_DIR == 0     /* in stage 0 the step is io_ratio * 2^31; about to leave downwards: below 2^31 */
+  VF_ASSUME(in_step > ((int64_t)1 << 28) && in_step < ((int64_t)1 << 31));
+#else               /* in stage -1 the step is io_ratio * 2^33; about to leave upwards: integer part > 1, fraction != 0 */
+  VF_ASSUME(in_step > ((int64_t)2 << 32) && in_step < ((int64_t)3 << 32) && (in_step & 0xffffffff) != 0);
+#endif
+  VF_ASSUME(in_ss > -((int64_t)1 << 20) && in_ss < ((int64_t)1 << 20) && in_ss != 0);
+  in_slew = 1000;     /* remaining slew length: constant (it only caps the frames per round; the slew RATE step_step is symbolic) - a symbolic
+                       * value makes the per-round frame count symbolic and path-wise exploration then walks infeasible loop iterations */
+  VF_ASSUME(in_at >= 0 && in_at < ((int64_t)8 << 32));
+  R.current.step.all = step0 = in_step; R.current.step_step.all = ss0 = in_ss; R.current.at.all = at0 = in_at;
   R.slew_len = (int)in_slew; R.new_io_ratio = .9;
-  { static float const zeros[8]; (void)vr_input(&R, zeros, 8); }      /* a few (zero) input samples beyond the pre-load */
   odone = vr_process(&R, 1);
   VF_ASSERT(odone >= 0 && odone <= 1, "vr_process: 0 <= frames <= requested (C07)");
-  VF_ASSERT(R.fade_len > 0 && R.current.stage_num == -1 && R.fadeout.stage_num == 0, "the octave crossing starts a cross-fade from stage 0 to stage -1 (C16)");
+  VF_ASSERT(R.current.stage_num == to && R.fadeout.stage_num == from && (R.fade_len > 0 || odone == 1), "the octave crossing starts a cross-fade from the old stage to the new one (C16)");
   mc = R.current.step_mult; mf = R.fadeout.step_mult;
-  VF_ASSERT(mc == 2 * mf || mc == mf || 2 * mc == mf, "the two streams' fixed-point scales differ by a power of two");
-  { /* compare in the finer of the two scales */
+  VF_ASSERT(VF_DIR? mf == 4 * mc : mc == 4 * mf, "stage 0 (2x rate, decimating) and stage -1 (interpolated input) count positions in units a factor 4 apart per output frame");
+  { /* compare in the finer scale (the stage -1 stream's); the streams have advanced by the SAME number of output frames (odone) */
     int64_t sc = R.current.step.all, sf = R.fadeout.step.all, ssc = R.current.step_step.all, ssf = R.fadeout.step_step.all, d, dd;
-    if (mc > mf) { sf *= (int64_t)(mc / mf); ssf *= (int64_t)(mc / mf); } else { sc *= (int64_t)(mf / mc); ssc *= (int64_t)(mf / mc); }
+    if (VF_DIR) { sc *= 4; ssc *= 4; } else { sf *= 4; ssf *= 4; }
     d = sc - sf; dd = ssc - ssf;
     VF_ASSERT(d >= -8 && d <= 8, "after a stage switch both streams run at the same instantaneous ratio (C16)");
-    VF_ASSERT(dd >= -2 && dd <= 2, "after a stage switch both streams slew at the same rate: the ratio keeps moving monotonically towards the target at the set speed (C16)");
+    VF_ASSERT(dd >= -4 && dd <= 4, "after a stage switch both streams slew at the same rate: the ratio keeps moving monotonically towards the target at the set speed (C16)");
+    VF_ASSERT(R.fadeout.step_step.all == ss0, "the outgoing stream keeps its slew increment (C16)");
+    VF_ASSERT(R.fadeout.step.all == step0 + (odone? ss0 : 0), "the outgoing stream's step advances by step_step per output frame only (C16)");
+    /* read positions: stage -1 holds the input at twice the rate of stage 0, and the end of vr_process subtracts the same consumed
+     * input from both, each in its own units */
+    if (VF_DIR) VF_ASSERT(R.fadeout.at.all - 2 * R.current.at.all >= 0 && R.fadeout.at.all - 2 * R.current.at.all <= 1, "after a stage switch both streams read the same instant of the input (C16)");
+    else VF_ASSERT(R.current.at.all == 2 * R.fadeout.at.all, "after a stage switch both streams read the same instant of the input (C16)");
   }
+  (void)at0;
 #endif
   VF_WITNESS();
 }
